@@ -205,7 +205,7 @@ def corpus_tds():
 def probe_positions(td, rng, extra=6):
     ps = set()
     for p in td.event_positions():
-        ps |= {p - TICK, p - TICK // 2, p, p + TICK // 4, p + TICK // 2, p + TICK}
+        ps |= {p - TICK, p - TICK // 2, p - TICK // 4, p - 7, p, p + 7, p + TICK // 4, p + TICK // 2, p + TICK}
     mx = max(td.event_positions())
     ps |= {-Q, -TICK, mx + Q, mx + 5 * TICK}
     ps |= {-4 * Q, -4 * Q - TICK, -12 * Q + Q // 2, -rng.randrange(4 * Q, 40 * Q)}        # measures before beat 0
